@@ -14,6 +14,8 @@ for d in sorted(glob.glob(os.path.join(ROOT, "seeded", "*"))):
         det = json.load(open(os.path.join(d, "detection.json")))
     caught, how = [], []
     for p, r in det.items():
+        if p.startswith("_"):
+            continue
         if r["exit"] == 1:
             caught.append(p)
             v = [l for l in r["lines"] if l.startswith("VIOLATION")]
